@@ -27,7 +27,9 @@ EXPLANATION = (
     'its graph nodes for that task; R-C08.6 a batch never calls '
     'task.execute() with a possibly-None sql (which would fall back to the '
     'SQL of all pending evolutions of the task); '
-    'R-C08.3 also: the batch builder generates no SQL for apps without a stored signature, and the raw sequence recorded for such an app is reduced by the labels already recorded.')
+    'R-C08.3 also: the batch builder generates no SQL for apps without a stored signature, and the raw sequence recorded for such an app is reduced by the labels already recorded.'
+    ' '
+    'R-C08.7 whether Evolver._save_project_sig writes the Evolution rows may depend only on there being evolutions to write (guards of the bulk_create call mention nothing but the parameter).')
 NOT_DECIDED = (
     'Exactly-once over histories of runs (needs executing several runs '
     'against one database).')
@@ -527,7 +529,54 @@ def r6_no_fallback_to_task_sql(ctx):
                         key='sql-none-fallback')
 
 
+def r7_recording_unconditional(ctx):
+    """Evolver._save_project_sig() is the one place where the evolutions of a
+    run become Evolution rows.  Whether the rows are written may depend only
+    on there being evolutions to write: every other condition (hinted mode,
+    simulation flags, ...) makes some run save a signature that contains an
+    app while recording none of the evolutions that signature already
+    reflects - the next run applies all of them again."""
+    ctx.rule('R-C08.7')
+    p = ctx.program
+    f = p.func('evolve.evolver', 'Evolver._save_project_sig')
+    g = ctx.cfg(f)
+    params = [x for x in f.params if x != 'self']
+    n = 0
+    for node in g.nodes:
+        for c in node.calls():
+            if call_name(c) not in ('bulk_create', 'create'):
+                continue
+            if not any(isinstance(x, ast.Name) and x.id in params
+                       for a in list(c.args) + [k.value for k in c.keywords]
+                       for x in ast.walk(a)):
+                continue
+            n += 1
+            bad = []
+            for t in g.nodes:
+                if t.kind not in ('test', 'operand') or not (
+                        g.guarded_by(node, t, 'T') or
+                        g.guarded_by(node, t, 'F')):
+                    continue
+                names = {x.id for x in ast.walk(t.ast)
+                         if isinstance(x, ast.Name)}
+                if not names <= set(params) | {'len'} or any(
+                        isinstance(x, ast.Attribute) for x in ast.walk(t.ast)):
+                    bad.append(' '.join(unparse(t.ast).split()))
+            if bad:
+                ctx.finding(f, c, 'whether the evolutions of a run are '
+                            'recorded also depends on "%s": a run that saves '
+                            'the new signature without the records makes the '
+                            'next run apply every evolution of a freshly '
+                            'installed app again' % '; '.join(sorted(set(bad))),
+                            key='recording-conditional')
+            else:
+                ctx.ok(f, 'the evolutions handed to _save_project_sig are '
+                       'always recorded', c)
+    ctx.floor('writes of Evolution rows in _save_project_sig', n, 1)
+
+
 def run(ctx):
+    r7_recording_unconditional(ctx)
     r6_no_fallback_to_task_sql(ctx)
     r1_who_may_record(ctx)
     r2_one_accumulation(ctx)
